@@ -671,6 +671,28 @@ func (w *c18World) exec(p *PRNG, o c18Op) error {
 			return err
 		}
 		inb[i] = cPair(c18S(a), c18NotesT(got))
+		// the same inbox read in small pages (offset/limit) must list exactly the same entries
+		if i < len(w.accts) && len(got) > 0 {
+			lim := uint64(1 + p.Intn(2))
+			var paged []c18Note
+			for off := uint64(0); off <= uint64(len(got))+lim; off += lim {
+				res, err := e.App.NotificationsKeeper.AllNotificationsByAddress(sdk.WrapSDKContext(e.Ctx),
+					&notiftypes.QueryAllNotificationsByAddress{To: a, Pagination: &query.PageRequest{Offset: off, Limit: lim}})
+				if err != nil {
+					return err
+				}
+				paged = append(paged, c18FromPB(res.Notifications)...)
+			}
+			same := len(paged) == len(got)
+			for j := 0; same && j < len(got); j++ {
+				same = paged[j] == got[j]
+			}
+			w.r.Hist("paged_inbox_reads", fmt.Sprintf("limit=%d entries=%d", lim, len(got)))
+			if !same {
+				w.finding("C18/query/paged-inbox-differs", fmt.Sprintf("the inbox of %s read in pages of %d lists %d entries, read at once %d", a, lim, len(paged), len(got)),
+					map[string]interface{}{"address": a, "limit": lim, "paged": paged, "at_once": got})
+			}
+		}
 	}
 	all, err := c18QAll(e, e.Ctx)
 	if err != nil {
